@@ -297,6 +297,45 @@ func c16CheckHdr(c c16HdrCase) engine.Result {
 	return res
 }
 
+// ---- long leads: the first plausible header far beyond the reader's buffer size
+
+type c16LongCase struct {
+	Lead  int `json:"lead_bytes"`
+	Kind  int `json:"lead_kind"`
+	Bufio int `json:"bufio_size"`
+	Chunk int `json:"reader_chunk"`
+}
+
+func c16CheckLong(c c16LongCase) engine.Result {
+	var res engine.Result
+	s := make([]byte, 0, c.Lead+2*188)
+	for i := 0; i < c.Lead; i++ {
+		switch c.Kind {
+		case 0:
+			s = append(s, 0xFF)
+		case 1: // a false sync byte (reserved afc) every 5 bytes
+			s = append(s, []byte{0x47, 0x00, 0x11, 0x00, 0x00}[i%5])
+		case 2: // runs of sync bytes whose "headers" carry reserved PIDs
+			s = append(s, []byte{0x47, 0x00, 0x05, 0x10, 0x47, 0x47, 0x00}[i%7])
+		default: // pseudo-random bytes without plausible headers are not guaranteed: let the reference decide
+			s = append(s, byte((i*131+c.Lead)%251))
+		}
+	}
+	s = append(s, c16NullPacket[:]...)
+	s = append(s, c16NullPacket[:]...)
+	at, falseSyncs, cut := c16Scan(s)
+	sr := ref.ScriptedReader{Data: s, Chunk: c.Chunk}
+	br := bufio.NewReaderSize(&sr, c.Bufio)
+	engine.Guard(&res, "Sync", func() {
+		c16Run(&res, br, &sr, s, at, c16Class(at, falseSyncs, cut), func() string {
+			return fmt.Sprintf("lead of %d bytes (kind %d) + two null packets, bufio size %d, reader chunk %d", c.Lead, c.Kind, c.Bufio, c.Chunk)
+		})
+	})
+	res.Nontrivial = 1
+	res.Outcome(at, falseSyncs > 0, c.Bufio)
+	return res
+}
+
 // ---- scripted-reader tree: hand-picked streams under chooser-driven fragmentation
 
 var c16TreeStreams = func() [][]byte {
@@ -385,6 +424,29 @@ func init() {
 					}
 				},
 				Check: c16CheckHdr, Batch: 1,
+			},
+			&engine.Enum[c16LongCase]{
+				Name: "sync-long-leads",
+				Rule: "leads of N bytes for N in 0..40, 180..200, 4080..4110, 8185..8200 and 70000 (thorough: every N in 0..9000) of 4 kinds (0xFF only; a reserved-afc false sync every 5 bytes; runs of sync bytes with reserved PIDs; pseudo-random) followed by two null packets, through bufio sizes {16, 4096, 65536} over readers handing out everything / 1000 bytes per call: the first plausible header lies far beyond the buffer size and, for the false-sync kinds, thousands of rejected candidates precede it; oracle as in sync-all-strings",
+				Gen: func(r *engine.Run, emit func(c16LongCase)) {
+					var leads []int
+					if r.Thorough() {
+						leads = seq(0, 9000)
+					} else {
+						leads = append(append(append(seq(0, 40), seq(180, 200)...), seq(4080, 4110)...), seq(8185, 8200)...)
+					}
+					leads = append(leads, 70000)
+					for _, n := range leads {
+						for k := 0; k < 4; k++ {
+							for _, b := range []int{16, 4096, 65536} {
+								for _, ch := range []int{0, 1000} {
+									emit(c16LongCase{n, k, b, ch})
+								}
+							}
+						}
+					}
+				},
+				Check: c16CheckLong, Batch: 4,
 			},
 			&engine.Tree{
 				Name: "sync-scripted-tree",
